@@ -40,12 +40,21 @@ def _swap(p):
 def rule_T1_create_join(mod, rep, config="pthread"):
     rep.rule("T1", "in p?gstrf every pthread_create (start routine p?gstrf_thread) sits in a loop bounded by nprocs and is followed, on every non-abort path to "
              "p?gstrf_thread_finalize and to return, by a pthread_join loop with the same bound over the same handle array (OpenMP: the fork call joins implicitly)", floor=4)
-    for prec, f in fam(mod, "p?gstrf"):
-        rep.scope([f.name])
+    for prec, f0 in fam(mod, "p?gstrf"):
+        rep.scope([f0.name])
+        key = "%s#create-join" % f0.name
+        f = f0
+        hcall = None
+        if not list(f0.calls("pthread_create")) and not list(f0.calls("__kmpc_fork_call")):
+            # creation and join moved together into a static helper of p?gstrf: analyse the helper, read its bound through the call
+            from .ext import _owned_helpers
+            for (hh_, call_, g_) in _owned_helpers(mod, f0):
+                if g_ is f0 and list(hh_.calls("pthread_create")):
+                    f = hh_; hcall = call_
+                    rep.scope([hh_.name])
         creates = list(f.calls("pthread_create"))
         joins = list(f.calls("pthread_join"))
         forks = list(f.calls("__kmpc_fork_call"))
-        key = "%s#create-join" % f.name
         if forks and not creates:
             # outlined body must call the worker; the fork call returns after all threads finished
             outl = []
@@ -62,7 +71,7 @@ def rule_T1_create_join(mod, rep, config="pthread"):
                       "OpenMP parallel region does not reach p%sgstrf_thread" % prec, forks[0].loc, f.name)
             continue
         if not creates:
-            rep.fail("T1", key, "no thread creation found in %s" % f.name, f.file, f.name)
+            rep.fail("T1", key, "no thread creation found in %s" % f0.name, f0.file, f0.name)
             continue
         why = []
         for c in creates:
@@ -83,7 +92,11 @@ def rule_T1_create_join(mod, rep, config="pthread"):
                 if bc[1] != bj[1] or f.paths(bc[2]) != f.paths(bj[2]):
                     why.append("create loop bound %s %s differs from join loop bound %s %s" % (bc[1], fmt_paths(f, f.paths(bc[2])), bj[1], fmt_paths(f, f.paths(bj[2]))))
                 nk = f.pindex("superlumt_options")
-                if not any(len(p) >= 2 and p[-2][0] == "f" and p[-2][2] == "nprocs" for p in f.paths(bc[2])):
+                bpaths = f.paths(bc[2])
+                bo = strip_casts(f, bc[2])
+                if hcall is not None and bo[0] == "a" and bo[1] < len(hcall.ops):
+                    bpaths = f0.paths(hcall.ops[bo[1]])          # the helper's bound parameter, as passed by p?gstrf
+                if not any((len(p) >= 2 and p[-2][0] == "f" and p[-2][2] == "nprocs") or (p[-1][0] == "f" and p[-1][2] == "nprocs") for p in bpaths):
                     why.append("create loop is not bounded by options->nprocs: %s" % fmt_paths(f, f.paths(bc[2])))
                 # start values both 0 and step +1
                 for nm, b in (("create", bc), ("join", bj)):
@@ -107,6 +120,12 @@ def rule_T1_create_join(mod, rep, config="pthread"):
             jh = f.blocks[lj[0]].insts[0]
             r = f.reach(creates, stop=lambda x: x.i == jh.i)
             fin = list(f.calls("p%sgstrf_thread_finalize" % prec))
+            if hcall is not None:
+                # in p?gstrf itself the helper call precedes finalize on every path
+                fin0 = list(f0.calls("p%sgstrf_thread_finalize" % prec))
+                r0 = f0.reach([f0.entry()], stop=lambda x: x.i == hcall.i, include_start=True)
+                if any(x.i in r0 for x in fin0):
+                    why.append("p?gstrf_thread_finalize is reachable without the call that runs and joins the threads")
             bad = [f.inst[x] for x in r if f.inst[x].op == "ret" or f.inst[x] in fin]
             if bad:
                 why.append("%s reachable from pthread_create without passing the join loop" % bad[0].loc)
